@@ -34,6 +34,45 @@ Section Steps.
   Lemma cnt_le_cons (E : list id) a : forall o, (cnt_id o E <= cnt_id o (a :: E))%nat.
   Proof. intros o. rewrite cnt_id_cons. lia. Qed.
 
+  (** [only_touches] *)
+  Lemma ot_refl o m : only_touches o m m.
+  Proof. intros p _. reflexivity. Qed.
+  Lemma ot_trans o m1 m2 m3 : only_touches o m1 m2 -> only_touches o m2 m3 -> only_touches o m1 m3.
+  Proof. intros A B p Hp. rewrite (B p Hp). apply A, Hp. Qed.
+  Lemma ot_heap o m m' : heap m' = heap m -> only_touches o m m'.
+  Proof. intros H p _. unfold get. rewrite H. reflexivity. Qed.
+  Lemma ot_alter o f m m' : heap m' = alter f o (heap m) -> only_touches o m m'.
+  Proof. intros H p Hp. eapply get_alter_ne; eauto. Qed.
+  Lemma ot_dec_rc_m o m : only_touches o m (dec_rc_m o m).
+  Proof. unfold dec_rc_m. destruct (dec_rc (hdr_of m o)); [eapply ot_alter; reflexivity | apply ot_heap; reflexivity]. Qed.
+  Lemma ot_remove_from_list o m : only_touches o m (remove_from_list o m).
+  Proof.
+    unfold remove_from_list. destruct (is_in_pc (hdr_of m o)); [|apply ot_refl]. destruct (pc_alive m); [|apply ot_refl].
+    unfold dec_size. match goal with |- context [if ?c then _ else _] => destruct c end; eapply ot_alter; reflexivity.
+  Qed.
+  Lemma ot_add_to_list o m : only_touches o m (add_to_list o m).
+  Proof.
+    unfold add_to_list. destruct (is_in_pc (hdr_of m o)); [apply ot_refl|]. destruct (pc_alive m); [|apply ot_refl].
+    destruct (is_not_marked (hdr_of m o) && negb (is_dropped (hdr_of m o))); eapply ot_alter; reflexivity.
+  Qed.
+  Lemma ot_dealloc o m : only_touches o m (dealloc K o m).
+  Proof.
+    unfold dealloc. destruct (get m o) as [x|]; [|apply ot_heap; reflexivity]. destruct (box_layout K x) as [sz al].
+    destruct (o_box x); repeat (match goal with |- context [if ?c then _ else _] => destruct c end); eapply ot_alter; reflexivity.
+  Qed.
+  Lemma ot_drop_metadata o m : only_touches o m (drop_metadata K o m).
+  Proof.
+    unfold drop_metadata. destruct (negb (k_weak K)); [apply ot_refl|]. destruct (get m o) as [x|]; [|apply ot_heap; reflexivity].
+    destruct (h_side (o_hdr x)); [|apply ot_refl]. destruct (o_side x) as [s|]; [|apply ot_heap; reflexivity].
+    destruct (w_cnt (sd_wk s) =? 0).
+    - unfold sfree. match goal with |- context [get ?mm o] => destruct (get mm o) as [y|] end; [|destruct (sd_freed s); apply ot_heap; reflexivity].
+      destruct (o_side y) as [s'|]; [|destruct (sd_freed s); apply ot_heap; reflexivity].
+      destruct (sd_freed s'), (sd_freed s); eapply ot_alter; reflexivity.
+    - destruct (sd_freed s); eapply ot_alter; reflexivity.
+  Qed.
+  Lemma quiet_vacuous o m m' x : get m o = Some x -> (o_ismap x = false \/ o_mslots x <> []) -> quiet_map o m m'.
+  Proof. intros Hx H y Hy Hm Hs. assert (y = x) by congruence. subst. destruct H; congruence. Qed.
+
   (** outcome Abort / Fuel of a non-collector activation: nothing to show *)
   Ltac triv_post := rewrite Post_nc by reflexivity; exact I.
   Ltac fin C := eapply Post_intro; [reflexivity | exact C | try exact I | try discriminate; auto].
@@ -341,7 +380,7 @@ Section Steps.
     pose proof (Cur_init K b true E (Some o) E [] m Hnb HI) as C0.
     unfold step_drop_map_slots. rewrite Hx.
     assert (Hrefl : post_own (KDropMapSlots o j) m m).
-    { exists x, x. repeat split; auto. }
+    { split; [intros; apply ot_refl|]. exists x, x. repeat split; auto. }
     destruct (o_mslots x !! j) as [sl|] eqn:Hsl; [|cbn [fst snd]; eapply Post_intro; [reflexivity | exact C0 | exact Hrefl | auto]].
     set (f := fun x : obj => x <| o_mslots ::= <[j := MVacant]> |>).
     set (m1 := upd o f m).
@@ -357,8 +396,9 @@ Section Steps.
     assert (Hfin : forall m2 m3 x2, post_own (KDropMapSlots o (S j)) m2 m3 ->
                get m2 o = Some x2 -> o_fields x2 = o_fields x -> o_cleaner x2 = o_cleaner x -> o_box x2 = o_box x ->
                (inD m2 o = true -> inD m o = true) -> post_own (KDropMapSlots o j) m m3).
-    { intros m2 m3 x2 (y2 & x3 & Hy2 & Hx3 & V3 & B3 & D3 & F3 & Cl3) Hx2 F2 Cl2 B2 D2.
+    { intros m2 m3 x2 (_ & y2 & x3 & Hy2 & Hx3 & V3 & B3 & D3 & F3 & Cl3) Hx2 F2 Cl2 B2 D2.
       assert (y2 = x2) by congruence. subst y2.
+      split; [intros y Hy Hn; assert (y = x) by congruence; subst; congruence|].
       exists x, x3. split; [exact Hx|]. split; [exact Hx3|]. split; [exact V3|].
       split; [congruence|]. split; [auto|]. split; congruence. }
     (* the action of the slot, if any *)
@@ -396,8 +436,9 @@ Section Steps.
       + intros m2' C2' ->. apply (rec_post false E (KDropMapSlots o (S j)) _ eq_refl (cur_nb _ _ _ _ _ _ _ _ _ C2') (cur_inv _ _ _ _ _ _ _ _ _ C2')).
         exists x2. split; [exact Hx2 | exact V2].
       + right. reflexivity.
-      + intros m3 Ho3 _. destruct Ho3 as (y2 & x3 & Hy2 & Hx3 & R).
+      + intros m3 Ho3 _. destruct Ho3 as (Hq3 & y2 & x3 & Hy2 & Hx3 & R).
         eapply (Hfin m2 _ x2); [| exact Hx2 | exact F2 | exact Cl2 | exact B2 | exact D2].
+        split; [intros y Hy Hn p Hp; apply (Hq3 y Hy Hn p Hp)|].
         exists y2, x3. split; [exact Hy2|]. split; [exact Hx3 | exact R].
   Qed.
   (** [unwinding] never returns normally; what is known when it returns with a panic *)
@@ -448,11 +489,15 @@ Section Steps.
     (forall jj t, o_fields x3 !! jj = Some (Some t) -> False) -> o_cleaner x3 = None ->
     o_box x3 = o_box x -> (inD m3 o = true -> inD m o = true) ->
     (r = ONormal -> b' = b /\ n' = true) ->
+    (o_ismap x = true -> o_mslots x = [] -> only_touches o m m3) ->
     Post K PostC b E (KDropValue o) m (upd o (fun x => x <| o_vst := VDropped |>) m3) r.
   Proof.
-    intros Hx C3 Hx3 V3 F3 Cl3 B3 D3 Hn.
+    intros Hx C3 Hx3 V3 F3 Cl3 B3 D3 Hn Hq.
     pose proof (Cur_vst_dropped K b' n' E m E [] m3 o x3 C3 Hx3 V3 F3 Cl3) as C4.
     eapply Post_intro; [reflexivity | exact C4 | | exact Hn].
+    split.
+    { intros y Hy Hm Hs. assert (y = x) by congruence. subst y.
+      eapply ot_trans; [apply Hq; assumption | eapply ot_alter; reflexivity]. }
     exists x, (x3 <| o_vst := VDropped |>). split; [exact Hx|]. split; [apply get_upd_eq, Hx3|].
     split; [reflexivity|]. split; [exact B3 | exact D3].
   Qed.
@@ -460,7 +505,7 @@ Section Steps.
   Lemma drop_value_node b E o m m1 x x1 :
     get m o = Some x -> Cur K b true E (Some o) m E [] m1 -> get m1 o = Some x1 -> o_vst x1 = VDropping ->
     o_fields x1 = o_fields x -> o_cleaner x1 = o_cleaner x -> o_box x1 = o_box x -> o_cls x1 = o_cls x ->
-    (forall o', inD m1 o' = inD m o') ->
+    (forall o', inD m1 o' = inD m o') -> o_ismap x = false ->
     PostOf b E (KDropValue o) m
       (let m := emit (ECb KDrop o (cur_flags K m1)) m1 in
        let '(m, boom) := tick KDrop m in
@@ -474,7 +519,7 @@ Section Steps.
          end in
        (upd o (fun x => x <| o_vst := VDropped |>) m, r)).
   Proof.
-    intros Hx C1 Hx1 Hv1 Hf1 Hc1 Hb1 Hcl1 Hd1.
+    intros Hx C1 Hx1 Hv1 Hf1 Hc1 Hb1 Hcl1 Hd1 Hnm.
     set (script := oscript P (c_drop (class_of P (o_cls x)))).
     assert (Hgoal : forall mm (rr : outcome), rr = OAbort \/ rr = OFuel -> Post K PostC b E (KDropValue o) m mm rr).
     { intros mm rr [-> | ->]; rewrite Post_nc by reflexivity; exact I. }
@@ -518,12 +563,12 @@ Section Steps.
       destruct r2; [ | | apply Hgoal; auto | apply Hgoal; auto].
       + destruct (Cur_call_n K PostC (KDropFields o 0) _ _ _ _ _ _ _ _ _ eq_refl HN HP2 (cnt_le_refl E) (or_intror eq_refl)) as [C4 Ho4].
         destruct Ho4 as (y3 & x4 & Hy3 & Hx4 & V4 & B4 & D4 & L4 & G4 & Cl4). assert (y3 = x3) by congruence. subst y3.
-        eapply (drop_value_finish b _ _ E o m x m4 x4 _ Hx C4 Hx4 V4); [ | exact Cl4 | congruence | | auto ].
+        eapply (drop_value_finish b _ _ E o m x m4 x4 _ Hx C4 Hx4 V4); [ | exact Cl4 | congruence | | auto | congruence ].
         * intros jj t. apply G4. lia.
         * intros Hd. apply D3, D4, Hd.
       + destruct (Cur_call_p K PostC (KDropFields o 0) _ _ _ _ _ _ _ _ _ eq_refl HN HP2 (cnt_le_refl E) (or_intror eq_refl)) as [C4 Ho4].
         destruct Ho4 as (y3 & x4 & Hy3 & Hx4 & V4 & B4 & D4 & L4 & G4 & Cl4). assert (y3 = x3) by congruence. subst y3.
-        eapply (drop_value_finish b _ _ E o m x m4 x4 _ Hx C4 Hx4 V4); [ | exact Cl4 | congruence | | discriminate ].
+        eapply (drop_value_finish b _ _ E o m x m4 x4 _ Hx C4 Hx4 V4); [ | exact Cl4 | congruence | | discriminate | congruence ].
         * intros jj t. apply G4. lia.
         * intros Hd. apply D3, D4, Hd.
     - (* the Drop impl panicked: the glue runs while unwinding *)
@@ -538,7 +583,7 @@ Section Steps.
         destruct (Hpp eq_refl) as (m4' & -> & C4 & Ho4 & _).
         destruct Ho4 as (y3 & x4 & Hy3 & Hx4 & V4 & B4 & D4 & L4 & G4 & Cl4).
         assert (y3 = x3) by (change (get (m3 <| panicking := true |>) o) with (get m3 o) in Hy3; congruence). subst y3.
-        eapply (drop_value_finish b _ _ E o m x _ x4 _ Hx C4 Hx4 V4); [ | exact Cl4 | congruence | | discriminate ].
+        eapply (drop_value_finish b _ _ E o m x _ x4 _ Hx C4 Hx4 V4); [ | exact Cl4 | congruence | | discriminate | congruence ].
         * intros jj t. apply G4. lia.
         * intros Hd. apply D3, D4, Hd.
   Qed.
@@ -578,20 +623,22 @@ Section Steps.
         destruct (sv_objx _ _ _ _ _ HI _ _ Hx) as [_ _ _ _ X5 _]. destruct (X5 Hmap) as (Hf0 & Hc0 & _).
         destruct r1; try triv_post.
         + destruct (Cur_call_n K PostC (KDropMapSlots o 0) _ _ _ _ _ _ _ _ _ eq_refl C1 HP1 (cnt_le_refl E) (or_intror eq_refl)) as [C2 Ho2].
-          destruct Ho2 as (y1 & x2 & Hy1 & Hx2 & V2 & B2 & D2 & F2 & Cl2). assert (y1 = x1) by congruence. subst y1.
-          eapply (drop_value_finish b _ _ E o m x m2 x2 _ Hx C2 Hx2 V2); [ | | | | auto ].
+          destruct Ho2 as (Hq2 & y1 & x2 & Hy1 & Hx2 & V2 & B2 & D2 & F2 & Cl2). assert (y1 = x1) by congruence. subst y1.
+          eapply (drop_value_finish b _ _ E o m x m2 x2 _ Hx C2 Hx2 V2); [ | | | | auto | ].
           * intros jj t. rewrite F2. unfold x1. cbn. rewrite Hf0. discriminate.
           * rewrite Cl2. unfold x1. cbn. exact Hc0.
           * rewrite B2. reflexivity.
           * intros Hd. apply D2, Hd.
+          * intros _ Hs. apply (ot_trans o m m1 m2); [apply (ot_alter o (fun x => x <| o_vst := VDropping |>)); reflexivity|]. apply (Hq2 x1 Hx1). unfold x1. cbn. rewrite Hs. reflexivity.
         + destruct (Cur_call_p K PostC (KDropMapSlots o 0) _ _ _ _ _ _ _ _ _ eq_refl C1 HP1 (cnt_le_refl E) (or_intror eq_refl)) as [C2 Ho2].
-          destruct Ho2 as (y1 & x2 & Hy1 & Hx2 & V2 & B2 & D2 & F2 & Cl2). assert (y1 = x1) by congruence. subst y1.
-          eapply (drop_value_finish b _ _ E o m x m2 x2 _ Hx C2 Hx2 V2); [ | | | | discriminate ].
+          destruct Ho2 as (Hq2 & y1 & x2 & Hy1 & Hx2 & V2 & B2 & D2 & F2 & Cl2). assert (y1 = x1) by congruence. subst y1.
+          eapply (drop_value_finish b _ _ E o m x m2 x2 _ Hx C2 Hx2 V2); [ | | | | discriminate | ].
           * intros jj t. rewrite F2. unfold x1. cbn. rewrite Hf0. discriminate.
           * rewrite Cl2. unfold x1. cbn. exact Hc0.
           * rewrite B2. reflexivity.
           * intros Hd. apply D2, Hd.
-      - apply (drop_value_node b E o m m1 x x1 Hx C1 Hx1 Hv1); try reflexivity. }
+          * intros _ Hs. apply (ot_trans o m m1 m2); [apply (ot_alter o (fun x => x <| o_vst := VDropping |>)); reflexivity|]. apply (Hq2 x1 Hx1). unfold x1. cbn. rewrite Hs. reflexivity.
+      - apply (drop_value_node b E o m m1 x x1 Hx C1 Hx1 Hv1); try reflexivity. exact Hmap. }
     destruct Hvst as [Hv|Hv]; rewrite Hv; exact Hmain.
   Qed.
   (** *** Cc::drop: the last part (the strong count reaches zero) *)
@@ -599,6 +646,8 @@ Section Steps.
     Cur K b true E None m0 (o :: E) [] mg ->
     get mg o = Some xg -> o_box xg = BAlloc -> o_vst xg = VLive -> inD mg o = false ->
     marked xg = false -> h_rc (o_hdr xg) = 1 -> is_dropped (o_hdr xg) = false ->
+    (forall x0, get m0 o = Some x0 -> o_ismap x0 = true -> o_mslots x0 = [] ->
+       only_touches o m0 mg /\ o_ismap xg = true /\ o_mslots xg = []) ->
     PostOf b E (KDropCc o) m0
       (let m := dec_rc_m o mg in
        let m := remove_from_list o m in
@@ -614,7 +663,7 @@ Section Steps.
        | _ => (m <| st_dropping := old_d |>, r)
        end).
   Proof.
-    intros Cg Hxg Hbg Hvg Hig Hmg Hrg Hdg. cbv zeta.
+    intros Cg Hxg Hbg Hvg Hig Hmg Hrg Hdg Hq0. cbv zeta.
     (* decrement *)
     pose proof (Cur_dec_rc K _ _ _ _ _ _ _ _ _ Cg) as C1.
     rewrite (dec_rc_m_eq mg o xg Hxg) in * by (rewrite Hrg; discriminate).
@@ -623,7 +672,7 @@ Section Steps.
     assert (Hx1 : get m1 o = Some x1) by (apply get_upd_eq, Hxg).
     (* un-buffer *)
     pose proof (Cur_remove_from_list K _ _ _ _ _ _ _ _ o x1 C1 Hx1 Hbg) as C2.
-    destruct (remove_from_list_obj m1 o x1 Hx1) as (x2 & Hx2 & (S1 & S2 & S3 & S4 & S5 & S6 & S7 & S8) & R1 & R2 & R3 & R4 & R5 & R6).
+    destruct (remove_from_list_obj m1 o x1 Hx1) as (x2 & Hx2 & (S1 & S2 & S3 & S4 & S5 & S6 & S7 & S8 & S9) & R1 & R2 & R3 & R4 & R5 & R6).
     set (m2 := remove_from_list o m1) in *.
     assert (Hrc2 : h_rc (o_hdr x2) = 0) by (rewrite R1; unfold x1; cbn; rewrite Hrg; reflexivity).
     assert (Hb2 : o_box x2 = BAlloc) by (rewrite S2; exact Hbg).
@@ -643,13 +692,18 @@ Section Steps.
     set (m4 := if k_weak K then uhdr o set_dropped m3 else m3).
     assert (D2 : Cur K b true E (Some o) m2 E [] m4 /\
                  exists x4, get m4 o = Some x4 /\ o_box x4 = BAlloc /\ o_vst x4 = VLive /\ h_rc (o_hdr x4) = 0 /\
-                            (k_weak K = true -> is_dropped (o_hdr x4) = true) /\ inD m4 o = false /\ o ∉ pc m4).
+                            (k_weak K = true -> is_dropped (o_hdr x4) = true) /\ inD m4 o = false /\ o ∉ pc m4 /\
+                            o_ismap x4 = o_ismap xg /\ o_mslots x4 = o_mslots xg).
     { unfold m4. destruct (k_weak K) eqn:Hk.
       - split.
         + apply (Cur_set_dropped K _ _ _ _ _ _ _ _ o x2 D1 Hx3); auto; congruence.
         + exists (x2 <| o_hdr ::= set_dropped |>). split; [apply get_upd_eq, Hx3|]. cbn. repeat split; auto; congruence.
       - split; [exact D1|]. exists x2. repeat split; auto; try congruence; try discriminate. }
-    destruct D2 as (D2 & x4 & Hx4 & Hb4 & Hv4 & Hrc4 & Hdr4 & Hi4 & Hpc4).
+    destruct D2 as (D2 & x4 & Hx4 & Hb4 & Hv4 & Hrc4 & Hdr4 & Hi4 & Hpc4 & Hmp4 & Hms4).
+    assert (Hot4 : only_touches o mg m4).
+    { apply (ot_trans o mg m1 m4); [apply (ot_alter o (fun x => x <| o_hdr ::= fun _ => set_rc (h_rc (o_hdr xg) - 1) (o_hdr xg) |>)); reflexivity|].
+      apply (ot_trans o m1 m2 m4); [apply ot_remove_from_list|]. apply (ot_trans o m2 m3 m4); [apply ot_heap; reflexivity|].
+      unfold m4. destruct (k_weak K); [apply (ot_alter o (fun x => x <| o_hdr ::= set_dropped |>)); reflexivity | apply ot_refl]. }
     assert (Hdroppable : droppable K E m4 o).
     { exists x4. split; [exact Hx4|]. split; [exact He0|]. rewrite Hb4. split; [exact Hv4|]. split; [exact Hdr4|]. left. auto. }
     pose proof (rec_post b E (KDropValue o) _ eq_refl (cur_nb _ _ _ _ _ _ _ _ _ D2) (cur_inv _ _ _ _ _ _ _ _ _ D2) Hdroppable) as HP.
@@ -667,7 +721,7 @@ Section Steps.
     destruct r; try triv_post.
     - (* the value was dropped: free the box *)
       destruct (Cur_call_n K PostC (KDropValue o) _ _ _ _ _ _ _ _ _ eq_refl D2 HP (cnt_le_refl E) (or_intror eq_refl)) as [D3 Ho].
-      destruct Ho as (y4 & x5 & Hy4 & Hx5 & Hv5 & Hb5 & Hi5). assert (y4 = x4) by congruence. subst y4.
+      destruct Ho as (Hq5 & y4 & x5 & Hy4 & Hx5 & Hv5 & Hb5 & Hi5). assert (y4 = x4) by congruence. subst y4.
       assert (Hi5' : inD m5 o = false) by (destruct (inD m5 o) eqn:Ei; [rewrite (Hi5 eq_refl) in Hi4; discriminate | reflexivity]).
       assert (Hz5 : (refs m5 o + cnt_id o E = 0)%nat).
       { pose proof (cur_inv _ _ _ _ _ _ _ _ _ D3) as HI5.
@@ -678,7 +732,12 @@ Section Steps.
       specialize (D4 ltac:(congruence) Hz5 ltac:(unfold is_live; rewrite Hv5; reflexivity) ltac:(congruence) (or_intror (or_intror eq_refl))).
       pose proof (Cur_restore_dropping K _ _ _ _ _ _ _ _ _ _ _ D4 HI2) as D5.
       cbn [fst snd]. change (st_dropping m2) with (st_dropping (remove_from_list o m1)) in D5.
-      eapply Post_intro; [reflexivity | apply (Hclose _ _ _ D5) | exact I | auto].
+      eapply Post_intro; [reflexivity | apply (Hclose _ _ _ D5) | | auto].
+      2: { intros x0 Hx0 Hm0 Hs0. destruct (Hq0 x0 Hx0 Hm0 Hs0) as (Hot0 & Hmg' & Hsg').
+           apply (ot_trans o m0 mg _ Hot0). apply (ot_trans o mg m4 _ Hot4).
+           apply (ot_trans o m4 m5 _ (Hq5 x4 Hx4 ltac:(congruence) ltac:(congruence))).
+           apply (ot_trans o m5 (drop_metadata K o m5) _ (ot_drop_metadata o m5)).
+           apply (ot_trans o _ (dealloc K o (drop_metadata K o m5)) _ (ot_dealloc o _)). apply ot_heap. reflexivity. }
       intros xf Hxf.
       assert (Hgf : exists y, get (dealloc K o (drop_metadata K o m5)) o = Some y /\ o_vst y = o_vst x5).
       { destruct (drop_metadata_vst K m5 o x5 Hx5) as (y1 & Hy1 & Hv1).
@@ -687,9 +746,12 @@ Section Steps.
         with (get (dealloc K o (drop_metadata K o m5)) o) in Hxf. assert (xf = y) by congruence. subst. congruence.
     - (* the value drop panicked: the box is leaked *)
       destruct (Cur_call_p K PostC (KDropValue o) _ _ _ _ _ _ _ _ _ eq_refl D2 HP (cnt_le_refl E) (or_intror eq_refl)) as [D3 Ho].
-      destruct Ho as (y4 & x5 & Hy4 & Hx5 & Hv5 & Hb5 & Hi5).
+      destruct Ho as (Hq5 & y4 & x5 & Hy4 & Hx5 & Hv5 & Hb5 & Hi5).
       pose proof (Cur_restore_dropping K _ _ _ _ _ _ _ _ _ _ _ D3 HI2) as D5.
-      cbn [fst snd]. eapply Post_intro; [reflexivity | apply (Hclose _ _ _ D5) | exact I | discriminate].
+      cbn [fst snd]. eapply Post_intro; [reflexivity | apply (Hclose _ _ _ D5) | | discriminate].
+      2: { intros x0 Hx0 Hm0 Hs0. destruct (Hq0 x0 Hx0 Hm0 Hs0) as (Hot0 & Hmg' & Hsg').
+           apply (ot_trans o m0 mg _ Hot0). apply (ot_trans o mg m4 _ Hot4).
+           apply (ot_trans o m4 m5 _ (Hq5 x4 Hx4 ltac:(congruence) ltac:(congruence))). apply ot_heap. reflexivity. }
       intros xf Hxf. change (get (m5 <| st_dropping := st_dropping m2 |>) o) with (get m5 o) in Hxf. assert (xf = x5) by congruence. subst. congruence.
   Qed.
   Lemma inflight_live b E W m o x :
@@ -734,14 +796,15 @@ Section Steps.
     destruct (Cur_own_alloc K _ _ _ _ _ _ _ _ _ C0) as (x & Hx & Hb & R1 & R2).
     unfold step_drop_cc. rewrite Hx, Hb.
     destruct (is_in_list_or_queue (o_hdr x)) eqn:Hmk.
-    { cbn [fst snd]. pose proof (Cur_dec_rc K _ _ _ _ _ _ _ _ _ C0) as C1. fin C1. }
+    { cbn [fst snd]. pose proof (Cur_dec_rc K _ _ _ _ _ _ _ _ _ C0) as C1. fin C1. intros ? ? ? ?. apply ot_dec_rc_m. }
     assert (Hi : inD m o = false).
     { destruct (inD m o) eqn:Ei; [|reflexivity]. specialize (Hown Ei). rewrite (marked_at_get _ _ _ Hx) in Hown.
       unfold marked in Hown. congruence. }
     destruct (inflight_live _ _ _ _ _ _ HI Hx Hi) as (_ & Hv & Hd & Hnz).
     destruct (h_rc (o_hdr x) =? 1) eqn:Hr1.
     2: { apply N.eqb_neq in Hr1. cbn [fst snd].
-         pose proof (drop_cc_buffer _ _ _ _ _ _ _ C0 Hx Hi Hmk Hr1) as C1. fin C1. }
+         pose proof (drop_cc_buffer _ _ _ _ _ _ _ C0 Hx Hi Hmk Hr1) as C1. fin C1.
+         intros ? ? ? ?. eapply ot_trans; [apply ot_dec_rc_m | apply ot_add_to_list]. }
     apply N.eqb_eq in Hr1.
     (* the finalizer, if any *)
     set (finstep := fun m : machine =>
@@ -768,12 +831,13 @@ Section Steps.
     assert (Hfin : forall mf rf go, finstep m = (mf, rf, go) ->
               (go = true -> rf = ONormal /\ Cur K b true E None m (o :: E) [] mf /\
                  exists xf, get mf o = Some xf /\ o_box xf = BAlloc /\ o_vst xf = VLive /\ inD mf o = false /\
-                            marked xf = false /\ h_rc (o_hdr xf) = 1 /\ is_dropped (o_hdr xf) = false) /\
+                            marked xf = false /\ h_rc (o_hdr xf) = 1 /\ is_dropped (o_hdr xf) = false /\
+                            (o_ismap x = true -> o_mslots x = [] -> only_touches o m mf /\ o_ismap xf = true /\ o_mslots xf = [])) /\
               (go = false -> Post K PostC b E (KDropCc o) m mf rf)).
     { intros mf rf go Hres. unfold finstep in Hres.
       destruct (k_fin K && needs_fin (o_hdr x)) eqn:Hkf.
       2: { injection Hres as <- <- <-. split; [|discriminate]. intros _. split; [reflexivity|]. split; [exact C0|].
-           exists x. unfold marked. auto 10. }
+           exists x. unfold marked. repeat split; auto; try apply ot_refl. }
       cbv zeta in Hres.
       pose proof (Cur_set_finalizing K _ _ _ _ _ _ _ _ true C0) as C1.
       set (m1 := m <| st_finalizing := true |>) in *.
@@ -790,10 +854,12 @@ Section Steps.
                       let '(m3, boom) := tick KFin m2' in
                       if boom then (m3, raise m3) else rec (KScript (Some o) (oscript P (c_fin (class_of P (o_cls x))))) m3) = (m3, r) ->
                 (r = ONormal -> Cur K b true E None m (o :: E) [] m3 /\
-                   exists x3, get m3 o = Some x3 /\ o_box x3 = BAlloc /\ o_vst x3 = VLive /\ inD m3 o = false /\ marked x3 = false) /\
-                (r = OPanic -> Cur K false false E None m (o :: E) [] m3)).
+                   exists x3, get m3 o = Some x3 /\ o_box x3 = BAlloc /\ o_vst x3 = VLive /\ inD m3 o = false /\ marked x3 = false /\
+                     (o_ismap x = true -> only_touches o m m3 /\ o_ismap x3 = o_ismap x /\ o_mslots x3 = o_mslots x)) /\
+                (r = OPanic -> Cur K false false E None m (o :: E) [] m3 /\ o_ismap x = false)).
       { intros m3 r Hc. destruct (o_ismap x) eqn:Hmap.
         - injection Hc as <- <-. split; [|discriminate]. intros _. split; [exact C2|]. exists x2. unfold marked. repeat split; auto.
+          apply (ot_alter o (fun x => x <| o_hdr ::= set_fin true |>)). reflexivity.
         - cbv zeta in Hc.
           pose proof (Cur_tick _ _ _ _ _ _ _ _ KFin (Cur_emit K _ _ _ _ _ _ _ _ (ECb KFin o (cur_flags K m2)) C2 eq_refl)) as C3.
           assert (Hg3 : forall o', get (tick KFin (emit (ECb KFin o (cur_flags K m2)) m2)).1 o' = get m2 o')
@@ -805,7 +871,7 @@ Section Steps.
           destruct (tick KFin (emit (ECb KFin o (cur_flags K m2)) m2)) as [m3' boom]. cbn [fst] in C3, Hg3, Hd3, Hc3.
           destruct boom.
           + injection Hc as <- <-. split; [unfold raise; destruct (panicking m3'); discriminate|].
-            intros _. eapply Cur_weaken; exact C3.
+            intros _. split; [eapply Cur_weaken; exact C3 | reflexivity].
           + assert (Hx3' : get m3' o = Some x2) by (rewrite Hg3; exact Hx2).
             assert (Hso : self_ok (o :: E) (Some o) (oscript P (c_fin (class_of P (o_cls x)))) m3').
             { left. exists x2. rewrite Hd3. repeat split; auto. left. rewrite cnt_id_cons_eq. lia. }
@@ -820,8 +886,8 @@ Section Steps.
               destruct (of_prot _ _ _ _ _ _ _ OF) as (P1 & P2 & P3 & _); [discriminate | exact Hb | left; rewrite cnt_id_cons_eq; lia |].
               exists x3. split; [exact Hx3|]. split; [exact P1|]. split; [rewrite P2; exact Hv|].
               split; [destruct (inD m3 o) eqn:Ei; [rewrite Hd3 in P3; rewrite (P3 eq_refl) in Hi; discriminate | reflexivity]|].
-              apply (of_unmarked _ _ _ _ _ _ _ OF); [exact Hmk | congruence].
-            * intros ->. apply (Cur_call_p K PostC (KScript (Some o) _) _ _ _ _ _ _ _ _ _ eq_refl C3 HP1 (cnt_le_cons E o) (or_introl eq_refl)). }
+              split; [apply (of_unmarked _ _ _ _ _ _ _ OF); [exact Hmk | congruence] | congruence].
+            * intros ->. split; [|reflexivity]. apply (Cur_call_p K PostC (KScript (Some o) _) _ _ _ _ _ _ _ _ _ eq_refl C3 HP1 (cnt_le_cons E o) (or_introl eq_refl)). }
       fold m1 m2 in Hres.
       destruct (if o_ismap x then (m2, ONormal)
                 else let m2' := emit (ECb KFin o (cur_flags K m2)) m2 in
@@ -829,31 +895,34 @@ Section Steps.
                      if boom then (m3, raise m3) else rec (KScript (Some o) (oscript P (c_fin (class_of P (o_cls x))))) m3) as [m3 r] eqn:Hc.
       destruct (Hcall m3 r eq_refl) as [HcN HcP]. clear Hcall.
       destruct r.
-      - destruct (HcN eq_refl) as (C3 & x3 & Hx3 & Hb3 & Hv3 & Hi3 & Hm3).
+      - destruct (HcN eq_refl) as (C3 & x3 & Hx3 & Hb3 & Hv3 & Hi3 & Hm3 & Hq3).
         rewrite (hdr_of_get _ _ _ Hx3) in Hres.
         destruct (h_rc (o_hdr x3) =? 1) eqn:Hr3; injection Hres as <- <- <-.
         + split; [|discriminate]. intros _. split; [reflexivity|].
           split; [eapply Cur_ieq; [exact C3 | repeat split | apply C3]|].
           exists x3. apply N.eqb_eq in Hr3.
-          destruct (inflight_live _ _ _ _ _ _ (cur_inv _ _ _ _ _ _ _ _ _ C3) Hx3 Hi3) as (_ & _ & Hd3 & _). auto 10.
+          destruct (inflight_live _ _ _ _ _ _ (cur_inv _ _ _ _ _ _ _ _ _ C3) Hx3 Hi3) as (_ & _ & Hd3 & _).
+          repeat split; auto; destruct (Hq3 H) as (Q1 & Q2 & Q3); [eapply ot_trans; [exact Q1 | apply ot_heap; reflexivity] | congruence | congruence].
         + split; [discriminate|]. intros _. apply N.eqb_neq in Hr3.
           pose proof (drop_cc_buffer _ _ _ _ _ _ _ C3 Hx3 Hi3 Hm3 Hr3) as C4.
           assert (C5 : Cur K b true E None m E [] (add_to_list o (dec_rc_m o m3) <| st_finalizing := st_finalizing m |>))
             by (eapply Cur_ieq; [exact C4 | repeat split | apply C4]).
-          fin C5.
-      - injection Hres as <- <- <-. split; [discriminate|]. intros _.
-        pose proof (Cur_leak K _ _ _ _ _ _ _ _ (HcP eq_refl)) as C4.
+          fin C5. intros x0 Hx0 Hm0 Hs0. assert (x0 = x) by congruence. subst x0. destruct (Hq3 Hm0) as (Q1 & _).
+          eapply ot_trans; [exact Q1|]. eapply ot_trans; [apply ot_dec_rc_m|]. eapply ot_trans; [apply ot_add_to_list | apply ot_heap; reflexivity].
+      - injection Hres as <- <- <-. split; [discriminate|]. intros _. destruct (HcP eq_refl) as [HcP' Hnm].
+        pose proof (Cur_leak K _ _ _ _ _ _ _ _ HcP') as C4.
         assert (C5 : Cur K false false E None m E [] (m3 <| st_finalizing := st_finalizing m |>))
           by (eapply Cur_ieq; [exact C4 | repeat split | apply C4]).
-        fin C5.
+        fin C5. apply (quiet_vacuous o m _ x Hx). left. exact Hnm.
       - injection Hres as <- <- <-. split; [discriminate|]. intros _. triv_post.
       - injection Hres as <- <- <-. split; [discriminate|]. intros _. triv_post. }
     match goal with |- context [if k_fin K && needs_fin (o_hdr x) then ?a else ?bb] =>
       change (if k_fin K && needs_fin (o_hdr x) then a else bb) with (finstep m) end.
     destruct (finstep m) as [[mf rf] go] eqn:Hfs. destruct (Hfin mf rf go eq_refl) as [Hgo Hnogo]. clear Hfin.
     destruct go; cbn [negb].
-    - destruct (Hgo eq_refl) as (-> & Cf & xf & Hxf & Hbf & Hvf & Hif & Hmf & Hrf & Hdf).
+    - destruct (Hgo eq_refl) as (-> & Cf & xf & Hxf & Hbf & Hvf & Hif & Hmf & Hrf & Hdf & Hqf).
       apply (drop_cc_tail b E o m mf xf Cf Hxf Hbf Hvf Hif Hmf Hrf Hdf).
+      intros x0 Hx0 Hm0 Hs0. assert (x0 = x) by congruence. subst x0. apply Hqf; assumption.
     - cbn [fst snd]. apply Hnogo. reflexivity.
   Qed.
 End Steps.
